@@ -228,7 +228,8 @@ class SymCtx:
         if isinstance(v, list):
             return PList([self._lift(x) for x in v])
         if isinstance(v, tuple) and not isinstance(v, M.NTVal):
-            return tuple(self._lift(x) for x in v)
+            new = tuple(self._lift(x) for x in v)
+            return v if all(a is b for a, b in zip(new, v)) else new     # keep identity when nothing was converted
         if isinstance(v, dict):
             return PDict([(self._lift(k), self._lift(x)) for k, x in v.items()])
         return v
